@@ -502,6 +502,10 @@ func validateQueueDepth(queue *schedulingv1beta1.Queue) error {
 	parent := queue.Spec.Parent
 
 	for parent != "" && parent != "root" {
+		// The queue itself among the ancestors of its new parent would close a cycle detached from root.
+		if parent == queue.Name {
+			return fmt.Errorf("queue %s cannot be moved under its own descendant %s", queue.Name, queue.Spec.Parent)
+		}
 		depth++
 		if depth > config.MaxQueueDepth {
 			return fmt.Errorf("queue %s exceeds the maximum allowed depth of %d", queue.Name, config.MaxQueueDepth)
@@ -514,7 +518,30 @@ func validateQueueDepth(queue *schedulingv1beta1.Queue) error {
 		parent = p.Spec.Parent
 	}
 
+	// Existing descendants move together with the queue and must stay within the limit as well.
+	if depth+queueSubtreeHeight(queue.Name, config.MaxQueueDepth-depth+1) > config.MaxQueueDepth {
+		return fmt.Errorf("moving queue %s would push its descendants beyond the maximum allowed depth of %d", queue.Name, config.MaxQueueDepth)
+	}
+
 	return nil
+}
+
+// queueSubtreeHeight returns the number of levels below the queue, counting at most limit levels.
+func queueSubtreeHeight(name string, limit int) int {
+	if limit <= 0 {
+		return 0
+	}
+	children, err := config.GetQueuesByParent(name)
+	if err != nil {
+		return 0
+	}
+	height := 0
+	for _, child := range children {
+		if h := 1 + queueSubtreeHeight(child.Name, limit-1); h > height {
+			height = h
+		}
+	}
+	return height
 }
 
 // validateHierarchicalQueueResources validates all hierarchy resource constraints for a queue
